@@ -50,6 +50,13 @@ Theorem C19_sample_to_event_spec : forall s c k,
 Proof. exact sample_to_event_spec. Qed.
 Print Assumptions C19_sample_to_event_spec.
 
+(* event -> sample: for every oracle draw and every shuffle the result lies in the requested event *)
+Theorem C19_event_to_sample_sound : forall k c m d perm s,
+  1 <= k -> Permutation perm (seq 0 m) -> event_to_sample k c m d perm = Some s ->
+  length s = m /\ list_sum s = k /\ Forall (fun v => v <= c) s /\ sample_to_event s c = Some k.
+Proof. exact event_to_sample_sound. Qed.
+Print Assumptions C19_event_to_sample_sound.
+
 (* ============ similarity.py: cardinalities (exact-integer model) ============ *)
 (* multinomial coefficient with exact division: cardinality * prod(multiplicity!) = modes!, for all sizes *)
 Theorem C19_orbit_cardinality_multinomial : forall o m, length o <= m ->
@@ -263,6 +270,6 @@ Proof. split; [apply adj_of_sym|reflexivity]. Qed.
    - unbounded completeness of orbits (C19_orbits_complete_full_statement) and the unbounded identification of
      orbit_cardinality with the number of samples (C19_cardinality_full_statement; the multinomial identity is
      proved for all sizes, the count only for the bounded sweep);
-   - event_to_sample, search/_update_dict as whole-history statements, nx.density (modelled as 2e/(n(n-1)) and
+   - search/_update_dict as whole-history statements, the probabilities used by event_to_sample, nx.density (modelled as 2e/(n(n-1)) and
      compared, not proved);
    - the implementation's floating-point orbit_cardinality is not modelled: the exact model is what is proved. *)
